@@ -121,6 +121,16 @@ var ksPaths = []ksPath{
 		e.t.guards("insecurecleartextkeyset.Read(BinaryReader)", gs)
 		return kh, nil, err
 	}},
+	{name: "insecurecleartextkeyset.Read(JSONReader)", build: func(e *ksEnv, v []byte) (*keyset.Handle, proto.Message, error) {
+		var buf bytes.Buffer
+		if err := keyset.NewJSONWriter(&buf).Write(keysetOf(e.pk, v)); err != nil {
+			return nil, nil, err
+		}
+		gs := e.t.place(ref.GuardLayout{Spare: e.spare}, buf.Bytes())
+		kh, err := insecurecleartextkeyset.Read(keyset.NewJSONReader(bytes.NewReader(gs.Args[0])))
+		e.t.guards("insecurecleartextkeyset.Read(JSONReader)", gs)
+		return kh, nil, err
+	}},
 	{name: managerPath, build: func(e *ksEnv, v []byte) (*keyset.Handle, proto.Message, error) {
 		return managerHandle(e.pk, v)
 	}},
